@@ -68,6 +68,15 @@ patch("runtime/preempt.go", [
     ("	return mp.locks == 0 && mp.mallocing == 0 && mp.preemptoff == \"\" && mp.p.ptr().status == _Prunning && mp.curg != nil && readgstatus(mp.curg)&^_Gscan != _Gsyscall",
      "	if simsched.enabled && mp.curg != nil && mp.curg.bubble != nil {\n		return false\n	}\n	return mp.locks == 0 && mp.mallocing == 0 && mp.preemptoff == \"\" && mp.p.ptr().status == _Prunning && mp.curg != nil && readgstatus(mp.curg)&^_Gscan != _Gsyscall"),
 ])
+# A goroutine blocked on a sync.Mutex/RWMutex/WaitGroup/semaphore can only be
+# woken by another goroutine of the same bubble in our worlds (everything runs
+# inside the bubble), so it must count as durably blocked: grpc holds mutexes
+# across blocking operations (e.g. clientStream.mu across a replay that waits
+# for flow control), and without this the fake clock would stop for good.
+patch("runtime/runtime2.go", [
+    ("	waitReasonSyncCondWait:          true,\n	waitReasonSynctestWaitGroupWait: true,",
+     "	waitReasonSyncCondWait:          true,\n	waitReasonSyncMutexLock:         true,\n	waitReasonSyncRWMutexRLock:      true,\n	waitReasonSyncRWMutexLock:       true,\n	waitReasonSyncWaitGroupWait:     true,\n	waitReasonSemacquire:            true,\n	waitReasonSynctestWaitGroupWait: true,"),
+])
 patch("runtime/sema.go", [
     ("func internal_sync_nanotime() int64 {\n	return nanotime()",
      "func internal_sync_nanotime() int64 {\n	if gp := getg(); simsched.enabled && gp.bubble != nil {\n		return gp.bubble.now\n	}\n	return nanotime()"),
@@ -106,6 +115,7 @@ import (
 )
 
 const simMaxDec = 1 << 22
+const simSpinLimit = 1000000
 
 type simschedState struct {
 	enabled    bool
@@ -121,6 +131,9 @@ type simschedState struct {
 	multi      uint64
 	hash       uint64 // rolling hash of (goid-rank,n,k) of every multi pick
 	diverge    uint64 // playback decisions that did not fit (k >= n)
+	spinSites  uint64 // yield sites visited since the bubble clock last moved
+	spinNow    int64
+	spinSleeps uint64 // virtual-time sleeps injected into spinning runs
 	ndec       uint32 // decisions recorded / consumed
 	nplay      uint32 // decisions available for playback
 	dec        [simMaxDec]uint8
@@ -195,6 +208,7 @@ func simEnable(schedSeed, auxSeed uint64, yieldThr uint32) {
 	simsched.yieldThr = yieldThr
 	simsched.picks, simsched.yields, simsched.yieldSites, simsched.multi = 0, 0, 0, 0
 	simsched.hash, simsched.diverge = 0, 0
+	simsched.spinSites, simsched.spinNow, simsched.spinSleeps = 0, -1, 0
 	simsched.ndec = 0
 	simsched.over = false
 	// Drop any preemption request raised against this goroutine before
@@ -239,10 +253,10 @@ func simGetDecisions(p *uint8, n int) (total int, overflow bool) {
 }
 
 //go:linkname simDisable
-func simDisable() (picks, multi, yields, sites, hash, diverge uint64) {
+func simDisable() (picks, multi, yields, sites, hash, diverge, spins uint64) {
 	simsched.enabled = false
 	simsched.play = false
-	return simsched.picks, simsched.multi, simsched.yields, simsched.yieldSites, simsched.hash, simsched.diverge
+	return simsched.picks, simsched.multi, simsched.yields, simsched.yieldSites, simsched.hash, simsched.diverge, simsched.spinSleeps
 }
 
 //go:linkname simIsEnabled
@@ -296,6 +310,31 @@ func simYield() {
 		return
 	}
 	simsched.yieldSites++
+	// Virtual time only moves when every goroutine of the bubble is blocked, so
+	// a goroutine that busy-retries while waiting for something that needs
+	// time to pass (e.g. bytes in flight on the simulated network) would spin
+	// forever. Executing code costs time on a real machine: after simSpinLimit
+	// scheduling points at one virtual instant the current goroutine sleeps for
+	// a (doubling) virtual duration. Normal runs never get near the limit.
+	if now := gp.bubble.now; now != simsched.spinNow {
+		simsched.spinNow = now
+		simsched.spinSites = 0
+	} else {
+		simsched.spinSites++
+		if simsched.spinSites > simSpinLimit {
+			simsched.spinSites = 0
+			n := simsched.spinSleeps
+			simsched.spinSleeps++
+			if n > 24 {
+				n = 24
+			}
+			if simsched.spinSleeps > 4000 {
+				print("SIMSPIN: runaway spin in virtual time, giving up\n")
+				exit(4)
+			}
+			timeSleep(int64(1000) << n)
+		}
+	}
 	var d uint32
 	if simsched.play {
 		d = simDecide(0, 2)
